@@ -212,7 +212,7 @@ func (g *Gen) genDeepcopyProgram(prefix string, npk int, arrayRefs bool) ([]dcPk
 			cur.Types = append(cur.Types, dcType{Name: "Obj", Kind: "iface"}, dcType{Name: "Impl", Kind: "impl"})
 			d.classes["named-interface"] = true
 			// ... and an implementation with value receivers (nonpointer-interfaces): the generator writes its DeepCopyObj
-			fmt.Fprintf(&b, "// +k8s:deepcopy-gen=true\n// +k8s:deepcopy-gen:interfaces=%s.Obj\n// +k8s:deepcopy-gen:nonpointer-interfaces=true\ntype ValImpl struct {\n\tN int\n\tP *int\n}\n\nfunc (v ValImpl) Get() int { return v.N }\n\n", pk.Path)
+			fmt.Fprintf(&b, "// +k8s:deepcopy-gen=true\n// +k8s:deepcopy-gen:interfaces=%s.Obj\n// +k8s:deepcopy-gen:interfaces=%s.Obj\n// +k8s:deepcopy-gen:nonpointer-interfaces=true\ntype ValImpl struct {\n\tN int\n\tP *int\n}\n\nfunc (v ValImpl) Get() int { return v.N }\n\n", pk.Path, pk.Path)
 			cur.Types = append(cur.Types, dcType{Name: "ValImpl", Kind: "struct", Generated: true})
 			d.classes["value-implementation-of-interface"] = true
 		}
